@@ -4,7 +4,7 @@
 
 use crate::rng::Rng;
 use crate::step::{dec, enc};
-use crate::world::canon_doc;
+use crate::world::canon_doc_ns;
 use xml_dom::{Node, NodeList, PrettyPrint, XmlNode};
 
 #[derive(Clone, Debug)]
@@ -93,7 +93,12 @@ impl<'a> CliGen<'a> {
                     G::EntRef(n.to_string(), v.to_string())
                 }
             };
+            // two distinct nodes that are equal in every respect (structural equality is not identity)
+            let twin = if matches!(g, G::El { .. }) && self.rng.pct(10) { Some(g.clone()) } else { None };
             v.push(g);
+            if let Some(t) = twin {
+                v.push(t);
+            }
         }
         v
     }
@@ -195,8 +200,19 @@ pub fn render(g: &G, root: bool, out: &mut String) {
     }
 }
 
-/// canonical content in the format of world::canon_doc
-pub fn canon_kids(kids: &[G], out: &mut String) {
+/// `{namespace}local` of a name under the binding `cur` of the prefix `p` (the only prefix the generator uses)
+fn expand_name(name: &str, cur: Option<&str>) -> String {
+    match name.strip_prefix("p:") {
+        Some(l) => match cur {
+            Some(u) => format!("{{{}}}{}", u, l),
+            None => format!("{{!unbound}}{}", l),
+        },
+        None => name.to_string(),
+    }
+}
+
+/// canonical content in the format of world::canon_doc_ns; `cur` is what the prefix `p` is bound to here
+pub fn canon_kids(kids: &[G], cur: Option<&str>, out: &mut String) {
     let mut run: Option<String> = None;
     fn flush(run: &mut Option<String>, out: &mut String) {
         if let Some(r) = run.take() {
@@ -227,21 +243,45 @@ pub fn canon_kids(kids: &[G], out: &mut String) {
                 // DocumentType::name() reports the local part, like Attr::name()
                 out.push_str(&format!("D({:?})", local(n)));
             }
-            G::El { name, attrs, kids, .. } => {
+            G::El { name, attrs, kids, ns } => {
                 flush(&mut run, out);
-                out.push_str(&format!("E({:?}", local(name)));
-                let mut a: Vec<(String, String)> = attrs.iter().map(|(k, v)| (local(k).to_string(), norm_attr(v))).collect();
+                let here: Option<&str> = match ns {
+                    Some(u) => Some(u.as_str()),
+                    None => cur,
+                };
+                out.push_str(&format!("E({:?}", expand_name(name, here)));
+                let mut a: Vec<(String, String)> = attrs.iter().map(|(k, v)| (expand_name(k, here), norm_attr(v))).collect();
                 a.sort();
                 for (k, v) in a {
                     out.push_str(&format!(" {}={:?}", k, v));
                 }
                 out.push('[');
-                canon_kids(kids, out);
+                canon_kids(kids, here, out);
                 out.push_str("])");
             }
         }
     }
     flush(&mut run, out);
+}
+
+/// what the prefix `p` is bound to for the children of the node at `path` (the root element declares urn:p)
+fn binding_at(root: &G, path: &[usize]) -> Option<String> {
+    let mut cur = Some("urn:p".to_string());
+    let mut g = root;
+    for (depth, i) in path.iter().enumerate() {
+        if let G::El { kids, ns, .. } = g {
+            if depth > 0 {
+                if let Some(u) = ns {
+                    cur = Some(u.clone());
+                }
+            }
+            match kids.get(*i) {
+                Some(k) => g = k,
+                None => break,
+            }
+        }
+    }
+    cur
 }
 
 fn string_value(g: &G, out: &mut String) {
@@ -820,8 +860,27 @@ pub fn gen_case(seed: u64, id: u64) -> Case {
             let k = match g.rng.below(10) {
                 0..=4 => G::Text(g.word(1, 4)),
                 5..=7 => {
-                    let e = g.element(3);
+                    let mut e = g.element(3);
                     vb = g.budget;
+                    // namespace declarations written in the value, with names that use them
+                    if g.rng.pct(35) {
+                        if let G::El { name, kids, ns, .. } = &mut e {
+                            *ns = Some(g.rng.ps(&["urn:p2", "urn:v", "urn:p"]).to_string());
+                            match g.rng.below(3) {
+                                0 => *name = "p:d".to_string(),
+                                1 => kids.push(G::El { name: "p:d".into(), attrs: vec![], kids: vec![], ns: None }),
+                                _ => {}
+                            }
+                        }
+                    }
+                    // two attributes that differ only in their prefix
+                    if g.rng.pct(6) {
+                        if let G::El { attrs, .. } = &mut e {
+                            attrs.retain(|(k, _)| k != "x");
+                            attrs.push(("x".into(), "1".into()));
+                            attrs.push(("p:x".into(), "2".into()));
+                        }
+                    }
                     e
                 }
                 8 => match g.rng.below(3) {
@@ -951,7 +1010,7 @@ pub fn gen_case(seed: u64, id: u64) -> Case {
             expect_kind = "any".into();
         } else if els == 1 && only_doc_level {
             let mut c = String::new();
-            canon_kids(&vkids, &mut c);
+            canon_kids(&vkids, None, &mut c);
             expect_kind = if indent { "canonws".into() } else { "canon".into() };
             expect = c;
         } else if !only_doc_level {
@@ -977,7 +1036,10 @@ pub fn gen_case(seed: u64, id: u64) -> Case {
                         let mut c = String::from("E(\"w\"[");
                         for p in &paths {
                             if let Some(g) = get(&root, p) {
-                                canon_kids(std::slice::from_ref(g), &mut c);
+                                // xq prints a node's own markup, without the declarations it inherits: the
+                                // printed text is read under the binding the wrapper gives (urn:p), whatever
+                                // the node's context was; re-declarations inside the subtree are printed
+                                canon_kids(std::slice::from_ref(g), Some("urn:p"), &mut c);
                                 c.push_str("T(\"\\n\")");
                             }
                         }
@@ -1049,8 +1111,11 @@ pub fn gen_case(seed: u64, id: u64) -> Case {
         }
         // regions of listed findings (recognised on the generator-side tree, before execution)
         if expect_kind.starts_with("canon") {
-            if value_has(&vkids, |g| matches!(g, G::El { name, .. } if name.contains(':'))) {
-                gate = "xe_value_prefixed_element".into();
+            if value_has(&vkids, |g| match g {
+                G::El { attrs, .. } => attrs.iter().any(|(k, _)| attrs.iter().any(|(k2, _)| k != k2 && local(k) == local(k2))),
+                _ => false,
+            }) {
+                gate = "xe_value_attribute_local_collision".into();
             }
         }
     }
@@ -1076,10 +1141,14 @@ fn has_text_child(root: &G, paths: &[Vec<usize>]) -> bool {
 
 fn canon_of(pre: &[G], root: &G, post: &[G]) -> String {
     let mut all: Vec<G> = pre.to_vec();
-    all.push(root.clone());
+    // the document element always declares xmlns:p="urn:p" (render), whatever its `ns` field says
+    all.push(match root.clone() {
+        G::El { name, attrs, kids, .. } => G::El { name, attrs, kids, ns: None },
+        g => g,
+    });
     all.extend_from_slice(post);
     let mut s = String::new();
-    canon_kids(&all, &mut s);
+    canon_kids(&all, Some("urn:p"), &mut s);
     s
 }
 
@@ -1108,7 +1177,7 @@ pub fn cmd_canon_batch() {
                 if !rest.is_empty() {
                     Err(format!("unconsumed input {:?}", rest))
                 } else {
-                    canon_doc(&d)
+                    canon_doc_ns(&d)
                 }
             }
             Err(e) => Err(format!("{}", e)),
